@@ -170,10 +170,16 @@ PROPERTIES["C02"] = {
                 "penalty and augmented-Lagrangian solvers: see C05"],
     "units": [
         {"engine": "sre", "harness": "C01_solver", "sources": ["C01_solver.cpp"],
-         "quick": ["solver=%s;d=1;conv=1" % s for s in ("sgm", "ellipsoid", "sda", "wda", "cocob")] + ["solver=gd;d=2;lsevals=2", "solver=lbfgs;d=1", "solver=bfgs;d=1;inf=1", "solver=ellipsoid;d=2;conv=1", "solver=sgm;d=2;conv=1;smooth=0"],
+         "quick": ["solver=%s;d=1;conv=1" % s for s in ("sgm", "ellipsoid", "sda", "wda")] + ["solver=gd;d=2;lsevals=2", "solver=lbfgs;d=1", "solver=bfgs;d=1;inf=1", "solver=ellipsoid;d=1;conv=1;inf=1", "solver=sgm;d=1;conv=1;smooth=0;inf=2"],
          "thorough": ["solver=%s;d=1;conv=1" % s for s in _NLS_SOLVERS] + ["solver=%s;d=2;conv=1;smooth=0" % s for s in ("sgm", "ellipsoid", "sda", "wda", "cocob")] +
                      ["solver=%s;d=1" % s for s in _LS_SOLVERS] + ["solver=ellipsoid;d=1;conv=1;inf=1", "solver=sgm;d=1;conv=1;inf=2", "solver=cocob;d=1;conv=1;evals=14"],
          "budget": {"quick": {"deadline_s": 60, "max_paths": 3000}, "thorough": {"deadline_s": 300, "max_paths": 50000}},
+         "encoded": _SOLVER_ENC},
+        {"engine": "sre", "harness": "C02_deep", "sources": ["C01_solver.cpp"],
+         "quick": ["solver=osga;d=1;conv=1", "solver=fgm;d=1;conv=1"],
+         "thorough": ["solver=osga;d=1;conv=1", "solver=osga;d=2;conv=1;smooth=0", "solver=cocob;d=1;conv=1", "solver=asga2;d=1;conv=1", "solver=asga4;d=1;conv=1",
+                      "solver=fgm;d=1;conv=1", "solver=dgm;d=1;conv=1", "solver=pgm;d=1;conv=1"],
+         "budget": {"quick": {"deadline_s": 45, "max_paths": 1500, "query_s": 3}, "thorough": {"deadline_s": 600, "max_paths": 100000, "query_s": 20}},
          "encoded": _SOLVER_ENC},
     ],
 }
@@ -317,3 +323,32 @@ PROPERTIES["C15"] = {
     ],
 }
 PROPERTIES["C15"]["units"][0]["thorough"] = PROPERTIES["C15"]["units"][0]["quick"]
+
+_C13_ENC = ["nano::tuner_t::optimize", "nano::local_search_tuner_t::do_optimize", "nano::surrogate_tuner_t::do_optimize", "nano::evaluate(spaces, callback, igrids, steps)", "nano::local_search",
+            "nano::map_to_grid", "nano::make_min/max/avg_igrid", "nano::param_space_t::{to_surrogate, closest_grid_point_from_surrogate}", "std::sort / std::remove_if instantiations on tuner_step_t"]
+PROPERTIES["C13"] = {
+    "level": "other",
+    "level_text": "bounded symbolic verification: on concrete grids, for EVERY landscape (the evaluation callback returns symbolic reals: unconstrained with all orderings explored by forking on small grids, or order-constrained by a rank function on large ones) both tuners evaluate only grid points, none twice, at most max_evals + 3^d of them, reject non-finite values, and return the evaluations sorted with the true minimum first; the surrogate tuner's inner solver is an arbitrary-point oracle",
+    "level_note": SRE_NOTE + "; unit C13_surrogate replaces solver_t::minimize by an oracle returning a state at an arbitrary symbolic point (covers every inner-solver behaviour)",
+    "technique": SRE_TECH,
+    "explanation": "C13 (first sentence): real tuner_t::optimize for local-search and surrogate tuners with a recording callback.",
+    "assumptions": SRE_ASSUME + ["grids are concrete (sizes listed per configuration), callback values boxed to [-100,100]"],
+    "bounds": {"grids": "1-3 grids of 2..31 values (linear and log10)", "max_evals": "10..20", "free landscapes": "<= 5 points in 1-D, 2x2 in 2-D (all orderings)", "ranked landscapes": "corner / center / edge / plateau argmin shapes"},
+    "outside": ["ml::tune driver: exactly-once (trial, fold) callback under the internal thread pool, (trial, fold) decode (integer code in allocating functions + threads)",
+                "landscapes outside the enumerated rank shapes on grids with more than 5 points"],
+    "units": [
+        {"engine": "sre", "harness": "C13_tuner", "sources": ["C13_tuner.cpp"],
+         "quick": ["tuner=local-search;g=2;land=free", "tuner=local-search;g=3;land=free", "tuner=local-search;g=5;land=free", "tuner=local-search;g=2,2;land=free", "tuner=local-search;g=5,5,5;land=corner;evals=10",
+                   "tuner=local-search;g=5,5,5;land=center;evals=20", "tuner=local-search;g=7,3;land=plateau", "tuner=local-search;g=31;land=edge;evals=10;log=1", "tuner=local-search;g=31,5;land=corner;evals=10",
+                   "tuner=local-search;g=5;land=free;nan=2", "tuner=local-search;g=5,5;land=corner;nan=7"],
+         "thorough": ["tuner=local-search;g=%s;land=%s;evals=%d;log=%d" % (g, l, e, lg) for g in ("5,5,5", "7,3", "31", "31,5", "9,9", "6,5,5") for l in ("corner", "center", "edge", "plateau") for (e, lg) in ((10, 0), (20, 1))] +
+                     ["tuner=local-search;g=%s;land=free" % g for g in ("2", "3", "4", "5", "2,2", "3,2")] + ["tuner=local-search;g=5;land=free;nan=%d" % k for k in (0, 1, 2, 3)],
+         "budget": {"quick": {"deadline_s": 60, "max_paths": 20000}, "thorough": {"deadline_s": 600, "max_paths": 400000}},
+         "encoded": _C13_ENC},
+        {"engine": "sre", "harness": "C13_surrogate", "sources": ["C13_tuner.cpp"], "flags": ["-DORACLE_MINIMIZE"],
+         "quick": ["tuner=surrogate;g=5;land=corner", "tuner=surrogate;g=3;land=free", "tuner=surrogate;g=7;land=center;evals=10", "tuner=surrogate;g=4,3;land=corner;evals=10", "tuner=surrogate;g=5;land=corner;nan=3"],
+         "thorough": ["tuner=surrogate;g=%s;land=%s;evals=%d" % (g, l, e) for g in ("5", "7", "4,3", "5,5", "31") for l in ("corner", "center", "plateau") for e in (10, 20)] + ["tuner=surrogate;g=%s;land=free" % g for g in ("2", "3", "4")],
+         "budget": {"quick": {"deadline_s": 60, "max_paths": 20000}, "thorough": {"deadline_s": 900, "max_paths": 400000}},
+         "encoded": _C13_ENC},
+    ],
+}
